@@ -15,6 +15,9 @@ def plan(ctx):
                               timeout=1500, mem_gb=6, sample={"symbolic": "5 data bytes, 5 unrelated bytes", "activity": ["create+destroy RS(1,1)", "create flat_xor(3,3,3), encode, leave alive", "failing create", "encode on an unknown descriptor", "legacy switch explicitly '0'"][act], "shape": [BNAME[be], k, m, hd], "ct": ct},
                               targets=["liberasurecode_encode", "liberasurecode_instance_create", "liberasurecode_instance_destroy"]))
     # inputs untouched / read exactly within bounds: the hosts assert it (exact-size heap objects + saved copies)
+    import copy
+    for base in (enc_ob(RS, 2, 1, 1, 2, 5, tag="history-encode"), enc_ob(RS, 2, 1, 1, 2, 5, legacy=3, tag="history-encode"), enc_ob(XOR, 3, 3, 3, 2, 13, tag="history-encode")):
+        o = copy.deepcopy(base); o.defs["PRELUDE"] = None; o.id += "-prelude"; obs.append(o)
     obs.append(enc_ob(RS, 2, 1, 1, 2, 5, tag="pure-encode"))
     obs.append(enc_ob(XOR, 3, 3, 3, 1, 13, tag="pure-encode"))
     obs.append(l2_ob(RS, 2, 1, 1, [2, 1], tag="pure-decode"))
